@@ -397,7 +397,10 @@ class Interp:
         return s
 
     def assume(self, v):
-        self.path.assume(self.truth_term(v))
+        t = self.truth_term(v)
+        self.path.assume(t)
+        if not isinstance(t, bool) and not self.path.feasible(z3.BoolVal(True)):
+            raise PathAbort("assumption contradicts the path condition")
 
     # -- module / global resolution ------------------------------------------------------------------------
     def module_global(self, mod: ModuleInfo, name: str):
